@@ -390,6 +390,26 @@ func runMalformed(kind string) int {
 			}
 			time.Sleep(30 * time.Millisecond)
 		}
+	case "chatty-during-close":
+		// valid control messages keep arriving while the application closes the connection and the TNC object
+		stop := make(chan struct{})
+		go func() {
+			for i := 0; ; i++ {
+				select {
+				case <-stop:
+					return
+				default:
+				}
+				sim.SendCmd([]string{"BUFFER 0", "PTT FALSE", "BUSY FALSE", "INPUTPEAKS 1 2"}[i%4])
+				time.Sleep(200 * time.Microsecond)
+			}
+		}()
+		time.Sleep(50 * time.Millisecond)
+		within(5*time.Second, func() { conn.Close() })
+		within(5*time.Second, func() { tnc.Close() })
+		time.Sleep(300 * time.Millisecond)
+		close(stop)
+		return 0
 	case "ctrl-unknown":
 		sim.SendCmd("FROBNICATE 1 2 3")
 		sim.SendCmd("")
@@ -692,7 +712,7 @@ func Main(args []string) int {
 		w.Write(map[string]interface{}{"scen": jobs[i].desc}, evs)
 	}
 	for _, k := range []string{"ctrl-no-arg", "ctrl-unknown", "bad-crc", "short-dframe", "len-65535", "truncated", "garbage", "unknown-prefix",
-		"ctrl-no-arg@listen", "ctrl-unknown@listen", "bad-crc@listen", "short-dframe@listen", "garbage@listen", "unknown-prefix@listen"} {
+		"ctrl-no-arg@listen", "ctrl-unknown@listen", "bad-crc@listen", "short-dframe@listen", "garbage@listen", "unknown-prefix@listen", "chatty-during-close"} {
 		evs := runChild(selfExe, []string{"ardop", "--child", k}, 30*time.Second)
 		crashed, hung, site := false, false, ""
 		if len(evs) == 1 && evs[0]["op"] == "Crash" {
